@@ -53,12 +53,19 @@ theorem C13_rejected_value_skips_only_itself (env : Env) (cons : Option Bytes) (
 
 /-! ## generated obligations (re-extracted from /repo's source text on every run) -/
 
-/-- the documented built-in table: names u8..u128, usize, i8..i128, isize, f32, f64, bool, ipv4, ipv6, each implemented
-for the corresponding Rust type -/
-theorem C13_builtins_table : Generated.builtinImpls = [([117, 56], [117, 56]), ([117, 49, 54], [117, 49, 54]), ([117, 51, 50], [117, 51, 50]), ([117, 54, 52], [117, 54, 52]), ([117, 49, 50, 56], [117, 49, 50, 56]), ([117, 115, 105, 122, 101], [117, 115, 105, 122, 101]), ([105, 56], [105, 56]), ([105, 49, 54], [105, 49, 54]), ([105, 51, 50], [105, 51, 50]), ([105, 54, 52], [105, 54, 52]), ([105, 49, 50, 56], [105, 49, 50, 56]), ([105, 115, 105, 122, 101], [105, 115, 105, 122, 101]), ([102, 51, 50], [102, 51, 50]), ([102, 54, 52], [102, 54, 52]), ([98, 111, 111, 108], [98, 111, 111, 108]), ([105, 112, 118, 52], [73, 112, 118, 52, 65, 100, 100, 114]), ([105, 112, 118, 54], [73, 112, 118, 54, 65, 100, 100, 114])] := by decide
+/-- the built-in names the property lists, each with the Rust type whose `FromStr` it must equal:
+u8..u128, usize, i8..i128, isize, f32, f64, bool, ipv4 (`Ipv4Addr`), ipv6 (`Ipv6Addr`) -/
+def propertyBuiltins : List (Bytes × Bytes) := [([117, 56], [117, 56]), ([117, 49, 54], [117, 49, 54]), ([117, 51, 50], [117, 51, 50]), ([117, 54, 52], [117, 54, 52]), ([117, 49, 50, 56], [117, 49, 50, 56]), ([117, 115, 105, 122, 101], [117, 115, 105, 122, 101]), ([105, 56], [105, 56]), ([105, 49, 54], [105, 49, 54]), ([105, 51, 50], [105, 51, 50]), ([105, 54, 52], [105, 54, 52]), ([105, 49, 50, 56], [105, 49, 50, 56]), ([105, 115, 105, 122, 101], [105, 115, 105, 122, 101]), ([102, 51, 50], [102, 51, 50]), ([102, 54, 52], [102, 54, 52]), ([98, 111, 111, 108], [98, 111, 111, 108]), ([105, 112, 118, 52], [73, 112, 118, 52, 65, 100, 100, 114]), ([105, 112, 118, 54], [73, 112, 118, 54, 65, 100, 100, 114])]
 
-/-- `Router::new` registers exactly those 17 types, each once -/
-theorem C13_builtins_registered : Generated.builtinRegistrations = [[117, 56], [117, 49, 54], [117, 51, 50], [117, 54, 52], [117, 49, 50, 56], [117, 115, 105, 122, 101], [105, 56], [105, 49, 54], [105, 51, 50], [105, 54, 52], [105, 49, 50, 56], [105, 115, 105, 122, 101], [102, 51, 50], [102, 54, 52], [98, 111, 111, 108], [73, 112, 118, 52, 65, 100, 100, 114], [73, 112, 118, 54, 65, 100, 100, 114]] := by decide
+/-- every built-in name of the property is implemented in `src/constraints.rs` for exactly the corresponding Rust type
+(no second `impl` claims the name). Further built-ins may exist: the property says nothing about them. -/
+theorem C13_builtins_table :
+    propertyBuiltins.all (fun p => (Generated.builtinImpls.filter (fun q => q.1 == p.1)) == [p]) = true := by decide
 
-/-- every built-in `check` is literally `part.parse::<Self>().is_ok()`, i.e. Rust's `FromStr` for that type -/
-theorem C13_builtins_are_fromstr : Generated.builtinFromStr = [[117, 56], [117, 49, 54], [117, 51, 50], [117, 54, 52], [117, 49, 50, 56], [117, 115, 105, 122, 101], [105, 56], [105, 49, 54], [105, 51, 50], [105, 54, 52], [105, 49, 50, 56], [105, 115, 105, 122, 101], [102, 51, 50], [102, 54, 52], [98, 111, 111, 108], [73, 112, 118, 52, 65, 100, 100, 114], [73, 112, 118, 54, 65, 100, 100, 114]] := by decide
+/-- `Router::new` registers each of those types (whatever else it registers) -/
+theorem C13_builtins_registered :
+    propertyBuiltins.all (fun p => Generated.builtinRegistrations.contains p.2) = true := by decide
+
+/-- the `check` of each of those types is literally `part.parse::<Self>().is_ok()`, i.e. Rust's `FromStr` for that type -/
+theorem C13_builtins_are_fromstr :
+    propertyBuiltins.all (fun p => Generated.builtinFromStr.contains p.2) = true := by decide
